@@ -43,6 +43,18 @@ CHECKS = {
         note="Trusted: independent AMF0 encoder/tokenizer harness/proj/amf.go; arbitrary bytes are covered as "
              "well-typed token sequences with truncation, count/marker faults, not as every byte string.",
         ref="6/C18"),
+    "C19": dict(
+        technique="TLA+ spec Codec (SPS syntax trees with the standard's size formulas, carrier / framing / AAC graphs, "
+                  "SDP codec pairs; TLC exhaustive) + execution of every enumerated case against lal's conversion and "
+                  "parse functions + TLC trace validation",
+        text="TLC enumerates H.264 / basic H.265 SPS syntax trees and computes the picture size in TLA+, enumerates paths "
+             "through the parameter-set carrier graph, the NAL framing graph and the AAC graph and codec pairs for SDP, and "
+             "checks the design invariants (size formula, length-field invertibility, byte-level Annex-B/AVCC round trip); "
+             "every case is executed against lal and the outputs, projected by independent writers/readers, are decided "
+             "by TLC (Trace_Codec).",
+        note="Exhaustive over finite pools (quick ~16k scenarios, thorough ~170k), not over all byte strings; SPS fields "
+             "that do not affect the size are fixed by the trusted bit writer; H.265 oracle is the coded luma size.",
+        ref="6/C19"),
 }
 
 NOT_APPLICABLE = {}
